@@ -109,14 +109,12 @@ func kindOf(paths []string) string {
 
 type handler struct {
 	c        *vlib.Check
-	g        *projgen.Graph
 	variants []variant
 	runs     int64
 	steps    int64
 	probes   int64
-	probeUnk int64
 	warnOnly int64
-	genFn    sync.Map // root|gen -> hash of exec+model files
+	genFn    sync.Map // root|schema|cfg -> hash of exec+model files
 	genConfl int64
 	infra    []string
 	mu       sync.Mutex
@@ -143,8 +141,8 @@ func hashString(m map[string]string) string {
 }
 
 // multiRun executes one Generate step under every variant from the same
-// pre-state and compares outcome class and hashes. It leaves the tree in the
-// post-state. Returns the outcome of the first variant and the hashes.
+// pre-state and compares outcome class and hashes (pure hash equality: no
+// model is involved in this verdict). It leaves the tree in the post-state.
 func (h *handler) multiRun(root string, restore func() error, label string, replay any) (projgen.GenOutcome, map[string]string, bool) {
 	var first projgen.GenOutcome
 	var firstH map[string]string
@@ -163,7 +161,7 @@ func (h *handler) multiRun(root string, restore func() error, label string, repl
 		atomic.AddInt64(&h.runs, 1)
 		if out.Class == "timeout" || out.Class == "crash" {
 			h.addInfra(fmt.Sprintf("generator %s (%s)\n%s", out.Class, label, tail(out.Stderr, 800)))
-			return first, firstH, false
+			return out, firstH, false
 		}
 		hs, err := projgen.HashTree(root, isGo)
 		if err != nil {
@@ -187,42 +185,47 @@ func (h *handler) multiRun(root string, restore func() error, label string, repl
 	return first, firstH, ok
 }
 
-func (h *handler) Generate(c *projgen.Conc, e *projgen.REdge, path []*projgen.REdge) projgen.GenOutcome {
+func (h *handler) WantBuild(pre *projgen.PState) bool { return false }
+
+func (h *handler) RunGenerate(c *projgen.Conc, pre *projgen.PState, path []*projgen.REdge) projgen.GenOutcome {
 	atomic.AddInt64(&h.steps, 1)
-	h.c.AddEvals(1)
-	label := "history: " + projgen.PathString(path) + fmt.Sprintf("  [resolver layout %s, exec layout %s]", e.SSt.Cfg.Rl, e.SSt.Cfg.El)
-	pre, err := c.Snapshot()
+	label := "history: " + projgen.PathString(path) + fmt.Sprintf("  [resolver layout %s, exec layout %s]", pre.Cfg.Rl, pre.Cfg.El)
+	snap, err := c.Snapshot()
 	if err != nil {
 		h.addInfra(err.Error())
 		return projgen.GenOutcome{Class: "crash"}
 	}
-	replay := projgen.ReplayFromPath(c, path)
-	first, hs, ok := h.multiRun(c.Root, func() error { return c.Restore(pre) }, label, replay)
-	if !ok || !first.OK() || !e.TSt.Ok {
-		return first
-	}
-	// gen' = F(schema, cfg): the executor / model files are a function of the fingerprint
-	// (informative only: the statement allows the output to depend on Go sources)
-	gk := c.Root + "|" + string(e.TSt.Gen)
-	gh := hashString(generatedOnly(hs))
-	if old, loaded := h.genFn.LoadOrStore(gk, gh); loaded && old.(string) != gh {
-		atomic.AddInt64(&h.genConfl, 1)
-	}
-	// verify that the tree is in the specified post-state before probing idempotence
-	if d := e.TSt.DiffObs(c.Project()); len(d) > 0 {
-		return first // C19's business; Step stops this history
-	}
-	h.probe(c, e.T, e.TSt, label, replay, hs)
-	if atomic.AddInt32(&h.sampled, 1) <= 3 {
-		h.c.Sample(map[string]any{"history": projgen.PathString(path), "cfg": e.SSt.Cfg, "processes": len(h.variants) + 1, "files_hashed": len(hs)})
-	}
+	replay := projgen.ReplayObject(&projgen.StepRec{Kind: "gen", Path: path, Seed: c.Seed, Pairs: c.Pairs, SFiles: c.Files, Init: initOf(path)})
+	first, _, _ := h.multiRun(c.Root, func() error { return c.Restore(snap) }, label, replay)
 	return first
 }
 
-// probe runs Generate once more with nothing edited on the tree that is in
-// (specified and verified) state tkey and judges the change against the
-// specification's Generate edge leaving that state. The tree is restored.
-func (h *handler) probe(c *projgen.Conc, tkey string, tst *projgen.PState, label string, replay any, hs map[string]string) {
+func initOf(path []*projgen.REdge) string {
+	if len(path) > 0 {
+		return path[0].S
+	}
+	return ""
+}
+
+// AfterGenerate: the tree is in the post-state of a (first or later) run: run Generate once more with
+// nothing edited, record the observed step for TLC (postcondition Idempotent) and the byte-level
+// differences, restore the tree.
+func (h *handler) AfterGenerate(r *projgen.Replayer, c *projgen.Conc, rec *projgen.StepRec) {
+	if rec.Gen == nil || !rec.Gen.OK() || !rec.Post.Ok {
+		return
+	}
+	h.c.AddEvals(1)
+	hs, err := projgen.HashTree(c.Root, isGo)
+	if err != nil {
+		h.addInfra(err.Error())
+		return
+	}
+	// gen' = F(schema, cfg), informative only (the statement allows the output to depend on Go sources)
+	fp, _ := json.Marshal([]any{rec.Post.Schema, rec.Post.Texists, rec.Post.Cfg})
+	gh := hashString(generatedOnly(hs))
+	if old, loaded := h.genFn.LoadOrStore(c.Root+"|"+string(fp), gh); loaded && old.(string) != gh {
+		atomic.AddInt64(&h.genConfl, 1)
+	}
 	post, err := c.Snapshot()
 	if err != nil {
 		h.addInfra(err.Error())
@@ -241,80 +244,98 @@ func (h *handler) probe(c *projgen.Conc, tkey string, tst *projgen.PState, label
 		return
 	}
 	hs2, _ := projgen.HashTree(c.Root, isGo)
-	d := projgen.DiffHashes(hs, hs2)
-	// by design (and by the C19 statement) the WARNING block is the content of the last run only:
-	// a resolver file that merely lost its trailing block is not a change of the kind C18 forbids
-	if len(d) > 0 {
-		var rest []string
-		for _, f := range d {
-			after, err := os.ReadFile(filepath.Join(c.Root, f))
-			if before, ok := post[f]; ok && err == nil && strings.Contains(filepath.Base(f), "resolver") && onlyWarnBlockRemoved(before, after) {
-				atomic.AddInt64(&h.warnOnly, 1)
-				h.c.Class("second-run-drops-warning-block:" + tst.Cfg.Rl)
+	var genChanged, resChanged []string
+	for _, f := range projgen.DiffHashes(hs, hs2) {
+		name := strings.Fields(f)[0]
+		after, err := os.ReadFile(filepath.Join(c.Root, name))
+		before, had := post[name]
+		switch {
+		case len(generatedOnly(map[string]string{name: ""})) > 0:
+			genChanged = append(genChanged, f)
+		case had && err == nil && strings.Contains(filepath.Base(name), "resolver") && onlyWarnBlockRemoved(before, after):
+			// by design (and by the C19 statement) the WARNING block is the content of the last run only
+			atomic.AddInt64(&h.warnOnly, 1)
+			h.c.Class("second-run-drops-warning-block:" + rec.Post.Cfg.Rl)
+		default:
+			resChanged = append(resChanged, f)
+		}
+	}
+	obs := c.Project()
+	pre := *rec.Post
+	pre.Dirty, pre.Comp = "clean", "unk"
+	book := pre
+	probe := &projgen.StepRec{Kind: "probe", Act: projgen.PAction{Name: "Generate"}, Pre: &pre, Post: projgen.WithObs(&book, obs), Obs: obs, Gen: &out2,
+		Path: rec.Path, Init: rec.Init, Files: c.ReportFiles(), Seed: c.Seed, Pairs: c.Pairs, SFiles: c.Files,
+		Extra: map[string]any{"genChanged": genChanged, "resChanged": resChanged, "after": rec.Kind}}
+	r.Add(probe)
+	if atomic.AddInt32(&h.sampled, 1) <= 3 {
+		h.c.Sample(map[string]any{"history": projgen.PathString(rec.Path), "cfg": rec.Post.Cfg, "processes": len(h.variants) + 1, "files_hashed": len(hs)})
+	}
+}
+
+// judge turns the recorded second runs + TLC's verdicts (postcondition Idempotent of the intended
+// design, evaluated on the observed pre/post states) into the check's verdict.
+func (h *handler) judge(recs []*projgen.StepRec) (accepted, violating, drift int) {
+	for _, rec := range recs {
+		switch rec.Kind {
+		case "init":
+			if d, _ := rec.Extra["initDiffs"].([]string); len(d) > 0 && rec.Gen != nil && (rec.Gen.Class == "timeout" || rec.Gen.Class == "crash") {
+				h.addInfra("initial generation: " + rec.Gen.Class)
+			}
+		case "edit":
+			if rec.V == nil || !rec.V.Same {
+				h.addInfra(fmt.Sprintf("after user edit %s the real tree does not project onto the successor of the specification's edit action (harness problem): %v", rec.Act, rec.Obs.Notes))
+			}
+		case "gen":
+			if rec.Drift {
+				drift++
+			}
+			h.c.Class("gen:" + rec.Pre.Cfg.Rl + "/" + rec.Pre.Cfg.El + ":" + rec.Pre.Dirty)
+		case "probe":
+			label := "history: " + projgen.PathString(rec.Path) + fmt.Sprintf("  [resolver layout %s, exec layout %s]", rec.Pre.Cfg.Rl, rec.Pre.Cfg.El)
+			if len(rec.Path) == 0 {
+				label = fmt.Sprintf("freshly generated project [resolver layout %s, exec layout %s]", rec.Pre.Cfg.Rl, rec.Pre.Cfg.El)
+			}
+			replay := projgen.ReplayObject(rec)
+			genChanged, _ := rec.Extra["genChanged"].([]string)
+			resChanged, _ := rec.Extra["resChanged"].([]string)
+			bad := false
+			if rec.Gen != nil && rec.Gen.Class != "ok" {
+				h.c.Violate("C18:second-run-fails", fmt.Sprintf("%s\nrunning Generate again with nothing edited ended %s\n%s", label, rec.Gen.Class, tail(rec.Gen.Stderr, 800)), replay)
+				violating++
 				continue
 			}
-			rest = append(rest, f)
-		}
-		d = rest
-	}
-	ge := h.g.GenerateEdge(tkey)
-	switch {
-	case out2.Class != "ok":
-		h.c.Violate("C18:second-run-fails", fmt.Sprintf("%s\nrunning Generate again with nothing edited ended %s\n%s", label, out2.Class, tail(out2.Stderr, 800)), replay)
-	case len(d) == 0:
-		// nothing changed: what the statement asks for
-	case len(projgen.DiffHashes(generatedOnly(hs), generatedOnly(hs2))) > 0:
-		h.c.Violate("C18:second-run-changes-generated-files:"+kindOf(d), fmt.Sprintf("%s\nrunning Generate again with nothing edited changed: %v", label, d), replay)
-	case ge == nil:
-		atomic.AddInt64(&h.probeUnk, 1) // state at the history bound: the exported graph has no prediction
-	case ge.T == tkey:
-		h.c.Violate("C18:second-run-changes-files:"+kindOf(d), fmt.Sprintf("%s\nrunning Generate again with nothing edited changed: %v\n(the specification says this state is a fixed point of Generate)", label, d), replay)
-	default:
-		// the specification (of the pinned tree) predicts a change of resolver files
-		stale, root := false, false
-		for _, dv := range ge.A.Devs {
-			if dv == "staleFile" {
-				stale = true
+			if len(genChanged) > 0 {
+				h.c.Violate("C18:second-run-changes-generated-files:"+kindOf(append(genChanged, resChanged...)), fmt.Sprintf("%s\nrunning Generate again with nothing edited changed: %v", label, append(genChanged, resChanged...)), replay)
+				bad = true
 			}
-			if dv == "rootLeftover" && hasRoot(ge.TSt) && !hasRoot(tst) {
-				root = true
+			if rec.V == nil {
+				h.addInfra("no verdict from ProjectStep for " + rec.ID)
+				continue
 			}
-		}
-		if dd := ge.TSt.DiffObs(c.Project()); len(dd) > 0 {
-			h.c.Violate("C18:second-run-diverges:"+kindOf(d), fmt.Sprintf("%s\nsecond run changed %v and the result is not the specified state: %v", label, d, dd), replay)
-			return
-		}
-		known := false
-		if root {
-			known = true
-			h.c.Violate(keyRoot, fmt.Sprintf("%s\nrunning Generate again with nothing edited changed %v: with the single-file resolver layout the existing `type Resolver struct{}` is not recognised as carried over; the re-run moves it into a WARNING block and emits a new one", label, d), replay)
-		}
-		if stale {
-			known = true
-			h.c.Violate(keyStale, fmt.Sprintf("%s\nrunning Generate again with nothing edited changed %v: a resolver file whose schema file lost its last resolver field was left behind by the first run; the second run finds the method declared twice and moves one copy into a WARNING block", label, d), replay)
-		}
-		if !known {
-			if warnOnlyChange(tst, ge.TSt) {
-				atomic.AddInt64(&h.warnOnly, 1)
-				h.c.Class("second-run-drops-warning-block:" + tst.Cfg.Rl)
+			keys, violated := rec.V.Findings("C18", rec.Pre.Cfg.Rl)
+			for _, k := range keys {
+				h.c.Violate(k, fmt.Sprintf("%s\n%s\nrunning Generate again with nothing edited changed %v\nviolated postcondition (spec/Project.tla, intended design): %v; observed post-state explained by deviations: %v (explained=%v)\nnotes: %v",
+					projgen.WhatOf(k), label, resChanged, violated, rec.V.D, rec.V.Explained, rec.Obs.Notes), replay)
+				bad = true
+			}
+			if len(keys) == 0 && len(resChanged) > 0 {
+				// the abstract state is unchanged but bytes of user-owned files are not
+				h.c.Violate("C18:second-run-changes-files:"+kindOf(resChanged), fmt.Sprintf("%s\nrunning Generate again with nothing edited changed: %v (more than the removal of the WARNING block)", label, resChanged), replay)
+				bad = true
+			}
+			if bad {
+				violating++
 			} else {
-				h.c.Violate("C18:second-run-changes-files:"+kindOf(d), fmt.Sprintf("%s\nrunning Generate again with nothing edited changed %v", label, d), replay)
+				accepted++
 			}
 		}
 	}
+	return
 }
 
 const keyRoot = "C18:single-file-root-type-moves-into-warning-block-on-rerun"
 const keyStale = "C18:stale-resolver-file-second-run-changes-output"
-
-func hasRoot(s *projgen.PState) bool {
-	for _, w := range s.Warn["resolver"] {
-		if w.K == "r" {
-			return true
-		}
-	}
-	return false
-}
 
 var reRootWarn = regexp.MustCompile(`(?s)\n// !!! WARNING !!!\n(//[^\n]*\n)+/\*\n\s*type \w+ struct\s*\{\}\n\*/\n$`)
 
@@ -334,38 +355,6 @@ func rootWarnAppended(before, after []byte) bool {
 	}
 	rest := after[len(bytes.TrimRight(before, "\n")):]
 	return reRootWarn.Match(rest)
-}
-
-// warnOnlyChange: the two states differ in nothing but the warning blocks.
-func warnOnlyChange(a, b *projgen.PState) bool {
-	x, y := *a, *b
-	x.Warn, y.Warn = nil, nil
-	ja, _ := json.Marshal(x)
-	jb, _ := json.Marshal(y)
-	return string(ja) == string(jb)
-}
-
-func (h *handler) Step(r *projgen.StepResult) bool {
-	if r.Gen != nil && (r.Gen.Class == "timeout" || r.Gen.Class == "crash") {
-		return false
-	}
-	if r.Edge.A.Name == "InitialGenerate" && len(r.Diffs) == 0 {
-		// the first re-run of a freshly generated project
-		if hs, err := projgen.HashTree(r.Conc.Root, isGo); err == nil {
-			h.c.AddEvals(1)
-			h.probe(r.Conc, r.Edge.T, r.Edge.TSt, fmt.Sprintf("freshly generated project [resolver layout %s, exec layout %s]", r.Edge.TSt.Cfg.Rl, r.Edge.TSt.Cfg.El), map[string]any{"history": "fresh project", "cfg": r.Edge.TSt.Cfg}, hs)
-		}
-	}
-	if len(r.Diffs) > 0 {
-		if r.Edge.A.Name != "Generate" && r.Edge.A.Name != "InitialGenerate" {
-			h.addInfra(fmt.Sprintf("after user edit %s the tree does not project onto the predicted state: %v", r.Edge.A, r.Diffs))
-		}
-		return false // divergence from the model is C19's subject; this history stops
-	}
-	if r.Edge.A.Name == "Generate" {
-		h.c.Class("gen:" + r.Edge.SSt.Cfg.Rl + "/" + r.Edge.SSt.Cfg.El + ":" + r.Edge.SSt.Dirty + ":" + strings.Join(r.Edge.A.Devs, ","))
-	}
-	return r.Edge.TSt.Ok
 }
 
 func tail(s string, n int) string {
@@ -460,10 +449,15 @@ func runReplayFile(file string) {
 		vlib.Infra("%v", err)
 	}
 	c := vlib.NewCheck("C18", "exploration")
-	h := &handler{c: c, g: g, variants: variantsThorough}
+	h := &handler{c: c, variants: variantsThorough}
 	rep := &projgen.Replayer{G: g, H: h, Name: "c18_replay", Seed: seed, Pairs: pairs, Files: files, Workers: 1}
 	rep.Run(map[string]*projgen.Trie{g.Inits[0]: projgen.PathTrie([][]*projgen.REdge{p})})
 	fmt.Printf("C18 replay: %s: %d Generate steps, %d generator processes\n", projgen.PathString(p), h.steps, h.runs)
+	if _, _, err := projgen.JudgeSteps(rep.Recs, len(pairs), vlib.Work("C18", "replay-judge")); err != nil {
+		vlib.Infra("ProjectStep (verdicts): %v", err)
+	}
+	acc, viol, _ := h.judge(rep.Recs)
+	fmt.Printf("C18 replay: %d second runs satisfy Idempotent, %d do not\n", acc, viol)
 	if len(rep.Errs)+len(h.infra) > 0 {
 		vlib.Infra("%v %v", rep.Errs, h.infra)
 	}
@@ -500,7 +494,12 @@ func main() {
 		nSteps, nRich = 150, 40
 		h.variants = variantsThorough
 	}
-	er, err := vlib.RunTLC(vlib.TLCOpts{Module: "MC_Project", Config: edgeCfg, Workers: 1, Scratch: scratch + "/edges", Timeout: 15 * time.Minute, HeapGB: 8})
+	override, curDevs, err := projgen.SpecOverride()
+	if err != nil {
+		vlib.Infra("%v", err)
+	}
+	fmt.Printf("C18: tours are generated from the model with the deviations listed open in known_findings.d: %v\n", curDevs)
+	er, err := vlib.RunTLC(vlib.TLCOpts{Module: "MC_Project", Config: edgeCfg, Workers: 1, Scratch: scratch + "/edges", Timeout: 15 * time.Minute, HeapGB: 8, Data: override})
 	if err != nil {
 		vlib.Infra("TLC: %v", err)
 	}
@@ -512,7 +511,6 @@ func main() {
 		vlib.Infra("edge export: %v", err)
 	}
 	er.Printed, er.Output = nil, ""
-	h.g = g
 	tries, n := g.SampleTries(nSteps, seed)
 	var nEdges, nGen int
 	for _, t := range tries {
@@ -529,8 +527,16 @@ func main() {
 	rep := &projgen.Replayer{G: g, H: h, Name: "c18", Seed: seed * 104729, Pairs: pairs, Files: []string{"a", "b"}, Workers: 3}
 	rep.Run(tries)
 	wg.Wait()
-	fmt.Printf("C18: %d Generate steps of replayed histories + %d feature-rich schemas; %d generator processes; %d second-run probes (%d without prediction, %d dropping only the WARNING block); mean generator time %.2fs  [%.0fs]\n",
-		h.steps, nRich, h.runs+rep.Stats.Inits, h.probes, h.probeUnk, h.warnOnly, float64(projgen.GenNanos)/1e9/float64(projgen.GenCount+1), time.Since(t0).Seconds())
+	fmt.Printf("C18: %d Generate steps of replayed histories + %d feature-rich schemas; %d generator processes; %d second runs (%d files dropping only the WARNING block); mean generator time %.2fs  [%.0fs]\n",
+		h.steps, nRich, h.runs+rep.Stats.Inits, h.probes, h.warnOnly, float64(projgen.GenNanos)/1e9/float64(projgen.GenCount+1), time.Since(t0).Seconds())
+	js, jg, err := projgen.JudgeSteps(rep.Recs, len(pairs), scratch+"/judge")
+	if err != nil {
+		vlib.Infra("ProjectStep (verdicts): %v", err)
+	}
+	accepted, violating, drift := h.judge(rep.Recs)
+	fmt.Printf("C18: verdicts by TLC (ProjectStep): %d second runs satisfy the postcondition Idempotent of the intended design, %d do not; implementation-level drift from the tour model on %d Generate steps (not a verdict)  [%.0fs]\n",
+		accepted, violating, drift, time.Since(t0).Seconds())
+	c.AddStates(js, jg)
 
 	mc := <-mcDone
 	if !mc.OK {
@@ -545,8 +551,8 @@ func main() {
 	}
 	c.AddStates(mc.Distinct, mc.Generated)
 	c.AddTraces(int64(n))
-	c.Set("rule", "seeded sample of Generate edges of the Project.tla state graph (all four layout combinations) reached by their BFS-shortest histories, plus feature-rich schemas from the C17 renderer; each Generate step = one evaluation, executed in several processes (GOMAXPROCS, start directory, clean / previous-output tree varied) and once more with nothing edited; a class = (layouts, kind of edits since last run, deviations) or a feature row")
-	c.Set("processes", map[string]any{"generator_processes": h.runs + rep.Stats.Inits, "variants_per_step": len(h.variants), "second_run_probes": h.probes, "probes_without_prediction": h.probeUnk, "second_runs_dropping_only_warning_block": h.warnOnly, "rich_schemas": nRich})
+	c.Set("rule", "seeded sample of Generate edges of the Project.tla state graph (all four layout combinations) reached by their BFS-shortest histories, plus feature-rich schemas from the C17 renderer; each Generate step = one evaluation, executed in several processes (GOMAXPROCS, start directory, clean / previous-output tree varied; verdict = hash equality) and once more with nothing edited (verdict = TLC evaluates the postcondition Idempotent of the intended design on the observed pre/post states, plus byte equality of generated files); a class = (layouts, kind of edits since last run, deviations) or a feature row")
+	c.Set("processes", map[string]any{"generator_processes": h.runs + rep.Stats.Inits, "variants_per_step": len(h.variants), "second_run_probes": h.probes, "second_runs_accepted": accepted, "second_runs_violating": violating, "impl_level_drift": drift, "tour_model_deviations": curDevs, "second_runs_dropping_only_warning_block": h.warnOnly, "rich_schemas": nRich})
 	c.Set("gen_function_conflicts", h.genConfl)
 	c.Assume("map-order nondeterminism is probabilistic: a missing sort over k >= 3 keys escapes one comparison of two processes with probability <= 1/k!; the number of process starts is reported")
 	c.Assume("idempotence is demanded for every file except that the trailing WARNING block of a resolver file is, by gqlgen's design and by the C19 statement, the content of the last run only: a second run removes it (spec/Project.tla Idempotent)")
